@@ -407,6 +407,7 @@ fn replay(path: &str) -> i32 {
     let prop = v["property"].as_str().unwrap_or("?").to_string();
     let res = match v["engine"].as_str().unwrap_or("") {
         "pratt" => eng_pratt::replay(&v),
+        "text" => eng_text::replay(&v),
         _ => cvh::replay::replay(&v),
     };
     match res {
